@@ -9,6 +9,7 @@ import json
 import os
 import sys
 
+os.environ['VERIF_RECORD_BASELINE'] = '1'      # context fingerprints are recorded, not compared
 sys.path.insert(0, os.path.dirname(os.path.dirname(os.path.abspath(__file__))))
 from vf import main  # noqa: E402
 from vf.common import DISCHARGED  # noqa: E402
